@@ -105,6 +105,33 @@ def normalise(files: Dict[str, str]) -> str:
     return GEN_NAME.sub(f, text)
 
 
+_RETR = [re.compile(r'\{\s*[^\n;{}]*? result = 0;\s*ANA_CHECK \(evtStore\(\)->retrieve\(result, ("[^"\n]*")\)\);\s*(\w+) = result;\s*\}'),
+         re.compile(r'\{\s*[^\n;{}]*? result;\s*iEvent\.getByLabel\(("[^"\n]*"), result\);\s*(\w+) = result;\s*\}'),
+         re.compile(r'\{\s*[^\n;{}]*? result;\s*iEvent\.getByToken\((\w+), result\);\s*(\w+) = result;\s*\}')]
+
+
+def strip_retrievals(files: Dict[str, str]) -> Dict[str, str]:
+    """The package with every collection retrieval block, the declaration of the variable it fills and (miniAOD) its token removed,
+    and the variable replaced by a name made of the bank it was read from: two programs that differ only in HOW OFTEN they
+    retrieve the same bank become equal."""
+    alltext = "\n".join(files.values())
+    tok_bank = dict(re.findall(r'(\w+) = consumes<[^\n]*>\(edm::InputTag\(("[^"\n]*")\)\);', alltext))
+    out = {}
+    for k, text in files.items():
+        vars_: Dict[str, str] = {}
+        for pat in _RETR:
+            for m in pat.finditer(text):
+                vars_[m.group(2)] = tok_bank.get(m.group(1), m.group(1))
+            text = pat.sub("", text)
+        for v, bank in vars_.items():
+            text = re.sub(r"^[^\n;(){}=]*\b" + re.escape(v) + r";[ \t]*\n", "", text, flags=re.M)
+            text = re.sub(r"\b" + re.escape(v) + r"\b", "@coll" + bank, text)
+        for t in tok_bank:
+            text = re.sub(r"^[^\n]*\b" + re.escape(t) + r"\b[^\n]*\n", "", text, flags=re.M)
+        out[k] = "\n".join(ln for ln in text.splitlines() if ln.strip())
+    return out
+
+
 def qastle_roundtrip(a: ast.AST) -> ast.AST:
     import qastle
 
@@ -1034,6 +1061,33 @@ def check(tier: str, seed: int, t0: float, build: core.BuildStatus) -> int:
                               {"kind": "pair", "variant": "fusion", "backend": backend, "a": a_src, "b": b_src,
                                "broken": "oracle: equal packages for chained and pre-fused steps (third-party simplify_chained_calls, differential only)"})
 
+    # ---- directed: a sequence bound by one Select and used SEVERAL times by the next: chained (func_adl substitutes ONE node for every
+    # use) versus hand-fused (a copy per use).  The unchanged translator retrieves the collection once for the shared node and once per
+    # copy, so the two packages are compared modulo repeated retrievals of the same bank (strip_retrievals); everything else - loops,
+    # filters, which element each test and each column reads - is the same program.
+    shared_n = 0
+    for backend in BACKENDS:
+        cname, bank, _ = UNIVERSE[backend][0]
+        for srcseq in (f'e.{cname}("{bank}").Where(lambda j: j.pt() > 30)', f'e.{cname}("{bank}").Select(lambda j: j.pt())',
+                       f'e.{cname}("{bank}").Where(lambda j: j.pt() > 30).Where(lambda k: k.eta() < 2)'):
+            elem_is_num = ".Select(lambda j: j.pt())" in srcseq
+            u1 = "s.Select(lambda a: a * 2.0)" if elem_is_num else "s.Select(lambda a: a.pt())"
+            u2 = "s.Select(lambda b: b + 1.0)" if elem_is_num else "s.Select(lambda b: b.eta())"
+            for uses in ((u1, u2), ("s.Count()", u1), (u1, "s.Count()"), (u1, u2, "s.Count()")):
+                chained = f"ds.Select(lambda e: {srcseq}).Select(lambda s: ({', '.join(uses)}))"
+                fused_tree, nf_ = fuse_variant(ast.parse(chained, mode="eval").body)
+                fused = src_of(fused_tree)
+                ra, rb = run_query(chained, backend), run_query(fused, backend)
+                oc.evaluations += 1
+                shared_n += 1
+                same = ra[0] == "ok" and rb[0] == "ok" and (ra[1] == rb[1] or normalise(strip_retrievals(RAW[ra[1]])) == normalise(strip_retrievals(RAW[rb[1]])))
+                if not same:
+                    violation("c08:fusion", f"a bound sequence used several times: the chained form and the hand-fused form translate to different programs even modulo "
+                              f"repeated retrievals ({describe(ra, rb) if ra[0] != 'ok' or rb[0] != 'ok' else 'loop bodies differ'}); chained = {chained} ; fused = {fused}",
+                              {"kind": "pair", "variant": "fusion-shared", "backend": backend, "a": chained, "b": fused,
+                               "broken": "oracle: equal packages (modulo repeated retrievals of one bank) for chained and pre-fused steps"})
+                else:
+                    oc.traces_validated_against_impl += 1
     # ---- directed: two independent C++ function declarations in either order, the calls in either order ----
     for backend in BACKENDS:
         cname, bank, _ = UNIVERSE[backend][0]
@@ -1082,6 +1136,7 @@ def check(tier: str, seed: int, t0: float, build: core.BuildStatus) -> int:
                "non-trivial = accepted base query with >= 3 operators, distinct by normalised package")
     oc.samples = samples[:8]
     oc.extra = {
+        "shared_bound_sequence_pairs_compared_modulo_repeated_retrievals": shared_n,
         "differential_variants_TESTS_not_proofs": stats,
         "base_queries_per_backend": per_backend,
         "operator_histogram": ops_hist,
